@@ -7,6 +7,11 @@ ALL = ["C%02d" % i for i in range(1, 21)]
 
 # property id -> (level category, level text, level note, technique, design ref)
 CHECKS = {
+ "C09": ("exploration",
+         "Bounded-exhaustive execution: every sequence of length 0..4 over a 16-symbol alphabet of rewrite shapes (quick; thorough adds lengths 5..6) plus PRNG-sampled sequences up to length 12 over all 78 shape variants, each run through DNSResult.DNSRewrites and (sampled) through a DNS engine, judged by an order-independent reference filter written from the statement. Order dependence and value-equality defects need several exceptions in particular positions, which enumeration of short sequences reaches completely.",
+         "Trusts the rule parser for the 19 value shapes used (C10 checks shapes); sequences longer than the bound are sampled only; keyword NOERROR as an exception value is a declared don't-care.",
+         "runtime differential oracle (reference filter) over bounded-exhaustive and sampled sequences",
+         "DESIGN.md section 4, C09"),
  "C16": ("exploration",
          "Exhaustive execution of all 512 modifier subsets through three access paths (rule objects, full engine, decoded cosmetic result) with three neighbouring-rule situations and the one-step monotonicity relation; the input space of the statement is finite, so running it completely is the right level.",
          "Trusts the documented meaning of $document (elemhide+jsinject+urlblock+content+extension) and the C06 class order for the important-blocking-rule variant; only the combinations of the nine listed modifiers are covered.",
